@@ -301,7 +301,7 @@ def obligations(tier: str) -> list[dict]:
     GR = ['greedy']
     CL = ['cluster']
     if tier == 'quick':
-        T = 400
+        T = 600
         for b in (2, 3, 4):
             ob(QSS, 4, 3, G, [b, b], T, 'gates')
         for b in (2, 3):
